@@ -345,10 +345,15 @@ class BPTC19696:
         table = BPTC19696.make_encoding_table()
         table = BPTC19696.fill_encoding_table(table, bits)
 
-        for row in range(0, table.shape[0]):
-            table[row] = Hamming15113.correct_numpy_array(table[row])
+        # full row pass, then full column pass, repeated until nothing changes
+        for _ in range(0, 5):
+            before = table.copy()
+            for row in range(0, table.shape[0]):
+                table[row] = Hamming15113.correct_numpy_array(table[row])
             for col in range(0, table.shape[1]):
                 table[:, col] = Hamming1393.correct_numpy_array(table[:, col])
+            if numpy.array_equal(before, table):
+                break
 
         for data_index, (
             interleave_index,
